@@ -7,6 +7,7 @@ import (
 	"fmt"
 	"io"
 	"net"
+	"reflect"
 	"strings"
 	"sync"
 	"time"
@@ -498,6 +499,41 @@ func (e *lcEnv) frpsTCPPorts() map[int]bool {
 		}
 	}
 	return out
+}
+
+// portAccounting reads the server's own port tables (ports in use, ports free) for "tcp" or "udp", so that "the
+// accounting equals what is really bound" can be checked as stated. It looks the tables up by reflection; ok=false
+// (and the invariant is simply not evaluated) if the server is laid out differently.
+func (e *lcEnv) portAccounting(proto string) (used, free map[int]bool, ok bool) {
+	defer func() {
+		if recover() != nil {
+			used, free, ok = nil, nil, false
+		}
+	}()
+	rc := reflect.ValueOf(e.frps.Svc).Elem().FieldByName("rc")
+	if !rc.IsValid() || rc.IsNil() {
+		return nil, nil, false
+	}
+	name := "TCPPortManager"
+	if proto == "udp" {
+		name = "UDPPortManager"
+	}
+	pm := rc.Elem().FieldByName(name)
+	if !pm.IsValid() || pm.IsNil() {
+		return nil, nil, false
+	}
+	u, f := pm.Elem().FieldByName("usedPorts"), pm.Elem().FieldByName("freePorts")
+	if !u.IsValid() || !f.IsValid() || u.Kind() != reflect.Map || f.Kind() != reflect.Map {
+		return nil, nil, false
+	}
+	used, free = map[int]bool{}, map[int]bool{}
+	for _, k := range u.MapKeys() {
+		used[int(k.Int())] = true
+	}
+	for _, k := range f.MapKeys() {
+		free[int(k.Int())] = true
+	}
+	return used, free, true
 }
 
 func (e *lcEnv) frpsUDPPorts() map[int]bool {
